@@ -79,22 +79,33 @@ def scenarios():
     add('S1 athlon score with age || score first-call', [], [_call(sc, 'M', '100', 12.5, 50), _call(sc, 'F', 'LJ', 4.5, 60)], bound=(1, 2))
     add('S1 athlon three threads first-call', [], [_call(sc, 'M', '100', 10.5), _call(pf, 'F', 'HJ', 1000), _call(sc, 'F', '800', 130.0)],
         bound=(1, 2))
+    # ESAA option and veterans' alias rows (same shared coefficient rows, other code paths)
+    add('S1 athlon ESAA 800||ESAA 800 first-call', [], [_call(sc, 'M', '800', 120.0, None, True), _call(sc, 'M', '800', 130.0, None, True)], bound=(1, 2))
+    add('S1 athlon ESAA 800||ESAA 800 first ESAA use, table warmed-up', [_call(sc, 'M', '100', 11)],
+        [_call(sc, 'M', '800', 120.0, None, True), _call(sc, 'M', '800', 130.0, None, True)], bound=(2, 2))
+    add('S1 athlon ESAA 800||plain 800 first-call', [], [_call(sc, 'M', '800', 120.0, None, True), _call(sc, 'M', '800', 120.0)], bound=(1, 2))
+    add('S1 athlon ESAA 800||plain 800 warmed-up', [_call(sc, 'M', '100', 11)], [_call(sc, 'M', '800', 120.0, None, True), _call(sc, 'M', '800', 120.0)], bound=(2, 2))
+    add('S1 athlon ESAA 800||performance 800 warmed-up', [_call(sc, 'M', '100', 11)], [_call(sc, 'M', '800', 120.0, None, True), _call(pf, 'M', '800', 800)], bound=(2, 2))
+    add('S1 athlon alias 80H||110H warmed-up', [_call(sc, 'M', '100', 11)], [_call(sc, 'M', '80H', 13.5, 60), _call(sc, 'M', '110H', 14.5)], bound=(1, 2))
     # S2 Hungarian
     add('S2 hungarian score||score first-call', [], [_call(hs, 'M', 'OUT', '100', 10.5), _call(hs, 'F', 'OUT', 'LJ', 6.5)], bound=(1, 2))
     add('S2 hungarian score||score warmed-up', [_call(hs, 'M', 'OUT', '200', 21)],
         [_call(hs, 'M', 'OUT', '100', 10.5), _call(hs, 'F', 'OUT', 'LJ', 6.5)])
     # S3 Sportshall
     ss = a.sportshall_score
-    add('S3 sportshall||sportshall first-call', [], [_call(ss, 'SLJ', '1.50'), _call(ss, '100', '30.0')], bound=(1, 1))
+    add('S3 sportshall||sportshall first-call', [], [_call(ss, 'SLJ', '1.50'), _call(ss, '100', '30.0')], tiers=('thorough',), bound=(1, 1))
     add('S3 sportshall||sportshall first-call, table build as one step', [], [_call(ss, 'SLJ', '1.50'), _call(ss, '100', '30.0')],
         bound=(2, 2), atomic=('athlib.sportshall_score', 'load_data'))
     add('S3 sportshall||sportshall warmed-up', [_call(ss, 'SHJ', '30')], [_call(ss, 'SLJ', '1.50'), _call(ss, '100', '30.0')])
     # S4 shared graders
     af, ag_, wb = a.wma_age_factor, a.wma_age_grade, a.wma_world_best
     aaf, aag = a.wma_athlon_age_factor, a.wma_athlon_age_grade
-    add('S4 wma_age_factor||wma_age_factor warmed-up', [_call(af, 'm', 40, 'HJ')], [_call(af, 'm', 50, 'HJ'), _call(af, 'f', 62, 'PV')])
+    # quick: rows at the top of the table keep the row scan (and so the number of scheduling points) short
+    add('S4 wma_age_factor||wma_age_factor warmed-up, early rows', [_call(af, 'm', 40, '55H')], [_call(af, 'm', 50, '55H'), _call(af, 'f', 62, '60H')])
+    add('S4 wma_age_factor||wma_age_factor warmed-up', [_call(af, 'm', 40, 'HJ')], [_call(af, 'm', 50, 'HJ'), _call(af, 'f', 62, 'PV')], bound=(1, 2))
     add('S4 wma_age_factor||wma_age_factor first-call', [], [_call(af, 'm', 50, 'HJ'), _call(af, 'f', 62, 'PV')], bound=(1, 2))
-    add('S4 wma_age_grade||wma_world_best warmed-up', [_call(af, 'm', 40, 'HJ')], [_call(ag_, 'm', 50, 'HJ', 1.8), _call(wb, 'f', 'LJ')])
+    add('S4 wma_age_grade||wma_world_best warmed-up, early rows', [_call(af, 'm', 40, '55H')], [_call(ag_, 'm', 50, '55H', 9.0), _call(wb, 'f', '60H')])
+    add('S4 wma_age_grade||wma_world_best warmed-up', [_call(af, 'm', 40, 'HJ')], [_call(ag_, 'm', 50, 'HJ', 1.8), _call(wb, 'f', 'LJ')], bound=(1, 2))
     add('S4 wma_athlon_age_factor||wma_athlon_age_grade warmed-up', [_call(aaf, 'M', 40, '100')],
         [_call(aaf, 'M', 50, '100'), _call(aag, 'f', 60, 'HJ', 1.4)])
     add('S4 interpolated distance || tabulated event warmed-up', [_call(af, 'm', 40, 'HJ')],
